@@ -7,8 +7,10 @@ package main
 
 import (
 	"fmt"
+	"reflect"
 	"runtime"
 	"strings"
+	"sync"
 
 	memefish "github.com/cloudspannerecosystem/memefish"
 	"github.com/cloudspannerecosystem/memefish/ast"
@@ -364,12 +366,13 @@ const (
 	vQuoteAndPosition
 	vSubSQL
 	vSplitThenParse
+	vEditSQL // the caller edits its tree, then unparses / traverses it, and compares with a deep copy
 	nVariants
 )
 
 var variantNames = []string{"base", "pos-end-all", "walk-paths", "inspect-mask-a", "inspect-mask-b",
 	"preorder-break-1/4", "preorder-break-1/2", "abort-visitor-1/3", "abort-visitor-2/3", "reenter-visitor",
-	"round-trip", "quote+position", "sub-sql", "split-then-parse"}
+	"round-trip", "quote+position", "sub-sql", "split-then-parse", "edit-then-sql"}
 
 // variantApplies reports whether variant v means anything for entry e.
 func variantApplies(e, v int) bool {
@@ -620,6 +623,23 @@ func writeVariant(s sink, sub *subject, v int) {
 			guard(s, "SQL()#2", func() { t2 = top.SQL() })
 			s.str(t1)
 			s.str(t2)
+			if cp, ok := deepCopy(top).(ast.Node); ok && t1 != "" {
+				t3 := ""
+				func() {
+					defer func() {
+						if r := recover(); r != nil {
+							if _, abandon := r.(runAbort); abandon {
+								panic(r)
+							}
+							t3 = t1
+						}
+					}()
+					t3 = cp.SQL()
+				}()
+				if t3 != t1 {
+					noteInvariant(fmt.Sprintf("SQL() of a tree and of a deep copy of it differ: %q vs %q", clip(t1), clip(t3)))
+				}
+			}
 			e := sub.entry
 			if e >= nParseEntries && e < 2*nParseEntries {
 				e -= nParseEntries
@@ -678,6 +698,44 @@ func writeVariant(s sink, sub *subject, v int) {
 				})
 			})
 		})
+	case vEditSQL:
+		// a caller that rewrites the tree it was given and unparses it: rename identifiers, swap
+		// and duplicate list elements, graft a subtree of another parse; then SQL(), Pos/End and
+		// a traversal.  O7: a deep copy of the edited tree (same content, fresh nodes) must
+		// unparse to the same text - SQL() depends on its argument only, not on node identity.
+		graft := callEntry(eParseExpr, sub.path, "grafted_fn(a.b, 'lit') + 1")
+		each(func(i int, top ast.Node) {
+			guard(s, "edit", func() { editTree(top, graft) })
+			var t1, t2 string
+			p1, p2 := "", ""
+			guard(s, "SQL(edited)", func() { t1 = top.SQL() })
+			guard(s, "Pos/End(edited)", func() { p1 = fmt.Sprint(top.Pos(), top.End()) })
+			s.str(t1)
+			s.str(p1)
+			c := 0
+			guard(s, "Inspect(edited)", func() { ast.Inspect(top, func(ast.Node) bool { c++; return true }) })
+			s.num(int64(c))
+			cp, ok := deepCopy(top).(ast.Node)
+			if !ok {
+				return
+			}
+			panicked := false
+			func() {
+				defer func() {
+					if r := recover(); r != nil {
+						if _, abandon := r.(runAbort); abandon {
+							panic(r)
+						}
+						panicked = true
+					}
+				}()
+				t2 = cp.SQL()
+				p2 = fmt.Sprint(cp.Pos(), cp.End())
+			}()
+			if !panicked && (t1 != t2 || p1 != p2) && t1 != "" {
+				noteInvariant(fmt.Sprintf("SQL()/Pos()/End() of two structurally identical trees differ: edited tree %q %s, deep copy of it %q %s", clip(t1), p1, clip(t2), p2))
+			}
+		})
 	case vSubSQL:
 		each(func(i int, top ast.Node) {
 			guard(s, "Inspect", func() {
@@ -688,6 +746,157 @@ func writeVariant(s sink, sub *subject, v int) {
 			})
 		})
 	}
+}
+
+// ---- tree editing and copying (variant edit-then-sql, oracle O7) ------------------------------------
+
+var (
+	invMu         sync.Mutex
+	invariantFail []string
+)
+
+// noteInvariant records a violated in-operation invariant (drained by the task after the call).
+func noteInvariant(msg string) {
+	invMu.Lock()
+	if len(invariantFail) < 16 {
+		invariantFail = append(invariantFail, msg)
+	}
+	invMu.Unlock()
+}
+
+func drainInvariants() []string {
+	invMu.Lock()
+	out := invariantFail
+	invariantFail = nil
+	invMu.Unlock()
+	return out
+}
+
+func clip(s string) string {
+	if len(s) > 120 {
+		return s[:120] + "..."
+	}
+	return s
+}
+
+var nodeType = reflect.TypeOf((*ast.Node)(nil)).Elem()
+
+// editTree rewrites a parsed tree in place the way an AST-rewriting caller does.
+func editTree(top ast.Node, graft *subject) {
+	seen := map[uintptr]bool{}
+	edits := 0
+	var rec func(v reflect.Value, depth int)
+	rec = func(v reflect.Value, depth int) {
+		if depth > 200 || edits > 400 {
+			return
+		}
+		switch v.Kind() {
+		case reflect.Interface:
+			if !v.IsNil() {
+				rec(v.Elem(), depth+1)
+			}
+		case reflect.Pointer:
+			if v.IsNil() || seen[v.Pointer()] {
+				return
+			}
+			seen[v.Pointer()] = true
+			if id, ok := v.Interface().(*ast.Ident); ok {
+				id.Name += "_x"
+				edits++
+				return
+			}
+			rec(v.Elem(), depth+1)
+		case reflect.Struct:
+			for i := 0; i < v.NumField(); i++ {
+				if v.Type().Field(i).IsExported() {
+					rec(v.Field(i), depth+1)
+				}
+			}
+		case reflect.Slice:
+			et := v.Type().Elem()
+			isNodes := et.Implements(nodeType) || et.Kind() == reflect.Pointer && et.Implements(nodeType)
+			for i := 0; i < v.Len(); i++ {
+				rec(v.Index(i), depth+1)
+			}
+			if isNodes && v.Len() >= 2 && v.CanSet() && edits < 400 {
+				// swap the first two elements and append (a pointer copy of) the first
+				a, b := reflect.New(et).Elem(), reflect.New(et).Elem()
+				a.Set(v.Index(0))
+				b.Set(v.Index(1))
+				v.Index(0).Set(b)
+				v.Index(1).Set(a)
+				v.Set(reflect.Append(v, v.Index(0)))
+				edits++
+			}
+		}
+	}
+	rec(reflect.ValueOf(top), 0)
+	// graft: put an expression of another parse where the first BinaryExpr has its right operand
+	if graft != nil && len(graft.nodes) == 1 && !isNilNode(graft.nodes[0]) {
+		if g, ok := graft.nodes[0].(ast.Expr); ok {
+			done := false
+			ast.Inspect(top, func(n ast.Node) bool {
+				if b, ok := n.(*ast.BinaryExpr); ok && !done {
+					b.Right = g
+					done = true
+				}
+				return !done
+			})
+		}
+	}
+}
+
+// deepCopy returns a structurally identical value made of fresh pointers and slices
+// (exported fields; aliasing inside the value is preserved).
+func deepCopy(x any) any {
+	if x == nil {
+		return nil
+	}
+	memo := map[visitKey]reflect.Value{}
+	var cp func(v reflect.Value) reflect.Value
+	cp = func(v reflect.Value) reflect.Value {
+		switch v.Kind() {
+		case reflect.Interface:
+			if v.IsNil() {
+				return v
+			}
+			out := reflect.New(v.Type()).Elem()
+			out.Set(cp(v.Elem()))
+			return out
+		case reflect.Pointer:
+			if v.IsNil() {
+				return v
+			}
+			k := visitKey{v.Pointer(), v.Type()}
+			if m, ok := memo[k]; ok {
+				return m
+			}
+			out := reflect.New(v.Type().Elem())
+			memo[k] = out
+			out.Elem().Set(cp(v.Elem()))
+			return out
+		case reflect.Struct:
+			out := reflect.New(v.Type()).Elem()
+			out.Set(v) // unexported fields by value
+			for i := 0; i < v.NumField(); i++ {
+				if v.Type().Field(i).IsExported() {
+					out.Field(i).Set(cp(v.Field(i)))
+				}
+			}
+			return out
+		case reflect.Slice:
+			if v.IsNil() {
+				return v
+			}
+			out := reflect.MakeSlice(v.Type(), v.Len(), v.Len())
+			for i := 0; i < v.Len(); i++ {
+				out.Index(i).Set(cp(v.Index(i)))
+			}
+			return out
+		}
+		return v
+	}
+	return cp(reflect.ValueOf(x)).Interface()
 }
 
 // ---- one operation ------------------------------------------------------------------------------
@@ -730,6 +939,9 @@ func runOpX(k opKey, shared *subject, wantText, fresh bool) opResult {
 	if wantText {
 		ts = &textSink{limit: 1 << 20}
 		s = teeSink{h, ts}
+	}
+	if k.Variant == vEditSQL {
+		shared = nil // this caller rewrites the tree: never on a tree that others only read
 	}
 	sub := shared
 	if sub == nil {
